@@ -599,11 +599,12 @@ class InProtocolBase(ProtocolMixin):
         try:
             delta = timedelta(days=days, hours=hours, minutes=minutes,
                 seconds=seconds, microseconds=microseconds)
+
+            if duration['sign'] == "-":
+                delta *= -1
+
         except OverflowError:
             raise ValidationError(string, "Duration %r is too long")
-
-        if duration['sign'] == "-":
-            delta *= -1
 
         return delta
 
